@@ -114,6 +114,16 @@ class Evaluator:
             if any(v is UNKNOWN for v in vals):
                 return UNKNOWN
             return tuple(vals) if not isinstance(e, ast.Set) else set(vals)
+        if isinstance(e, ast.Call) and isinstance(e.func, ast.Name) and e.func.id in ("all", "any") and len(e.args) == 1 and not e.keywords \
+                and isinstance(e.args[0], (ast.Tuple, ast.List)):
+            vals = [self.ev(a, depth) for a in e.args[0].elts]
+            if e.func.id == "all":
+                if any(v is not UNKNOWN and not v for v in vals):
+                    return False
+                return UNKNOWN if any(v is UNKNOWN for v in vals) else True
+            if any(v is not UNKNOWN and v for v in vals):
+                return True
+            return UNKNOWN if any(v is UNKNOWN for v in vals) else False
         if isinstance(e, ast.Call) and isinstance(e.func, ast.Name) and e.func.id in ("len", "int", "bool", "min", "max", "abs", "round", "float"):
             vals = [self.ev(a, depth) for a in e.args]
             if any(v is UNKNOWN for v in vals) or e.keywords:
